@@ -24,7 +24,10 @@ func init() {
 			{"C06/forward", "host->client: prefix uint16(n), payload buf[:n] with the same n of this Read, constant buffer <= 65535, one packet per read, buffer reset, exit only on read error", c06Forward},
 			{"C06/receive", "client->host: the host receives the whole declared-length slice, only when it was completely filled from the packet", c06Receive},
 			{"C06/order", "one goroutine per direction: receive only from the packet loop, forward spawned once per processor", c06Order},
-			{"C06/transports", "both transports hand over whole reads and write exactly the packet given, once, without deadlines", func(c *Ctx) { transportRules(c, "C06/transports", true); c.Floor("C06/transports", 5, "two reads, constructor, two writes") }},
+			{"C06/transports", "both transports hand over whole reads and write exactly the packet given, once, without deadlines", func(c *Ctx) {
+				transportRules(c, "C06/transports", true)
+				c.Floor("C06/transports", 5, "two reads, constructor, two writes")
+			}},
 		},
 	})
 }
@@ -247,7 +250,8 @@ func c06Order(c *Ctx) {
 			case *ssa.Go:
 				if f := x.Call.StaticCallee(); f != nil && fnName(f) == protoPkg+".forward" {
 					nGo++
-					c.Check(sf == "(*cmd/rdpgw/protocol.Processor).Process" && !inCycleWithin(x), rule, "go forward in "+sf, x.Pos(), "the relay goroutine is started by the packet loop, once per accepted channel (C01/typestate: one dial per processor)", "forward is spawned outside the packet loop's channel-create path")
+					inLoop := sf == "(*cmd/rdpgw/protocol.Processor).Process" || c.onlyCalledFrom(fn, c.Fn("cmd/rdpgw/protocol", "Processor.Process"), 0) && !inCycle(x.Block())
+					c.Check(inLoop && !inCycleWithin(x), rule, "go forward in "+sf, x.Pos(), "the relay goroutine is started by the packet loop, once per accepted channel (C01/typestate: one dial per processor)", "forward is spawned outside the packet loop's channel-create path")
 				}
 			case *ssa.Call:
 				if calleeName(x) == protoPkg+".receive" {
